@@ -729,7 +729,10 @@ def run_r7(ctx, prop, n_cleanup=400, n_relogin=600, n_random=600):
                      'and FIX client sessions; (B) server sessions whose peer repeats its LoginRequest (after acceptance, in the same segment, '
                      'while on_login is awaiting, after a LogoutRequest, after a rejection) x every close trigger — are judged by the property '
                      'oracle only (' + JUDGED[prop] + '): Model/Session.lean has no server session / login-request event and its handler '
-                     'programs cannot call close() on cancellation')
+                     'programs cannot call close() on cancellation'
+                     + ('; the model-level part is Props/C05Cleanup.lean: in every reachable state a task the closer is awaiting has its '
+                        'cancellation pending, the session already reports closed and a close() awaited by that task returns in the same step '
+                        'without touching the close in progress' if prop == 'C05' else ''))
 
 
 def load_corpus(prop):
